@@ -16,7 +16,9 @@ ORACLE = ('LOCATE r,c: accepted iff 1 <= r <= 24 (25 with the key line off ... t
 BOUNDS = {'LOCATE': 'every 16-bit row with a fixed column and every 16-bit column with a fixed row',
           'writing': 'the character A at a symbolic row 1..24 in column 1, 40 or 80 and at a symbolic column '
                      '1..80 in row 1, 12 or 24; every printable character 32..126 at (12,40) and (10,80); VIEW PRINT 5 TO 10 with writes at '
-                     'the last window row and column 80', 'outside': 'control characters, DBCS, WIDTH 40, '
+                     'the last window row and column 80; LOCATE to every column after a row filled to its last column; '
+                     '1..165 characters printed from the bottom row of VIEW PRINT windows 3-10, 5-5, 1-24; five '
+                     'characters printed at every column of row 25', 'outside': 'control characters, DBCS, WIDTH 40, '
           'graphics modes, longer print histories'}
 ASSUMPTIONS = ['z3 decides the formulas', 'symx models validated per path']
 
@@ -103,6 +105,68 @@ def body_view_print(h):
     return [R, C]
 
 
+def body_overflow_locate(h):
+    """a row filled exactly to its last column leaves the cursor hanging; LOCATE must clear that"""
+    impl = _setup(h, [], [b'A%', b'R%', b'C%', b'S%', b'P%', b'N%'])
+    impl.execute(b'KEY OFF: CLS')
+    a = h.int('a', 1, 80)
+    session.poke_int(h, impl, b'A%', seq2(h, a))
+    impl.execute(b'LOCATE 5,1: PRINT STRING$(80,"a");: LOCATE 7,A%: PRINT "X";: R%=CSRLIN: C%=POS(0): S%=SCREEN(7,A%)')
+    impl.execute(b'P%=32: N%=32: IF A%>1 THEN P%=SCREEN(7,A%-1)')
+    impl.execute(b'IF A%<80 THEN N%=SCREEN(7,A%+1)')
+    R, C, S, P, N = [_geti(impl, n) for n in (b'R%', b'C%', b'S%', b'P%', b'N%')]
+    h.require('no-error', impl.interpreter.error_num == 0)
+    h.require('character-at-the-located-cell', s_and(S == 88, P == 32, N == 32), [S, P, N])
+    h.require('cursor-advances', s_and(C == ite(a == 80, 1, a + 1), R == ite(a == 80, 8, 7)), [R, C])
+    return [R, C, S, P, N]
+
+
+def body_window_fill(h):
+    """printing N characters from the start of the bottom row of a VIEW PRINT window"""
+    top, bottom = h.params['window']
+    impl = _setup(h, [], [b'N%', b'R%', b'C%', b'S1%', b'S2%', b'S3%', b'S4%'])
+    impl.execute(b'KEY OFF: CLS')
+    if top > 1:
+        impl.execute(b'LOCATE %d,1: PRINT "u";' % (top - 1))
+    if bottom < 25:
+        impl.execute(b'LOCATE %d,1: PRINT "d";' % (bottom + 1))
+    n = h.int('n', 1, h.params['maxn'])
+    session.poke_int(h, impl, b'N%', seq2(h, n))
+    impl.execute(b'VIEW PRINT %d TO %d: LOCATE %d,1: PRINT STRING$(N%%,"a");: R%%=CSRLIN: C%%=POS(0)' % (top, bottom, bottom))
+    impl.execute(b'S3%%=SCREEN(%d,1): VIEW PRINT: S1%%=117: S2%%=100' % bottom)
+    if top > 1:
+        impl.execute(b'S1%%=SCREEN(%d,1)' % (top - 1))
+    if bottom < 25:
+        impl.execute(b'S2%%=SCREEN(%d,1)' % (bottom + 1))
+    R, C, S1, S2, S3 = [_geti(impl, x) for x in (b'R%', b'C%', b'S1%', b'S2%', b'S3%')]
+    h.require('no-error', impl.interpreter.error_num == 0)
+    h.require('cursor-stays-in-window', s_and(R >= top, R <= bottom, C >= 1, C <= 80), [R, C])
+    # reference placement: the text occupies (n-1)//80 + 1 rows ending at the bottom row; the cursor
+    # follows the last character, or hangs after column 80 (reported as column 1 of the row below,
+    # which inside a window can only be the bottom row itself after the pending scroll)
+    rem = n % 80
+    h.require('column-follows-the-text', C == ite(rem == 0, 1, rem + 1), [C])
+    h.require('rows-outside-window-unchanged', s_and(S1 == 117, S2 == 100), [S1, S2])
+    # the bottom row holds the tail of the text unless the cursor hangs after a full row
+    h.require('bottom-row-holds-text', S3 == 97, [S3])
+    return [R, C, S1, S2, S3]
+
+
+def body_row25(h):
+    """row 25 lies outside the scroll area: writing there, however long, scrolls nothing"""
+    impl = _setup(h, [], [b'A%', b'R%', b'C%', b'S1%', b'S2%', b'S3%'])
+    impl.execute(b'KEY OFF: CLS: LOCATE 1,1: PRINT "R";: LOCATE 24,1: PRINT "Z";')
+    a = h.int('a', 1, 80)
+    session.poke_int(h, impl, b'A%', seq2(h, a))
+    impl.execute(b'LOCATE 25,A%: PRINT "ABCDE";: R%=CSRLIN: C%=POS(0): S1%=SCREEN(1,1): S2%=SCREEN(24,1): S3%=SCREEN(25,A%)')
+    R, C, S1, S2, S3 = [_geti(impl, x) for x in (b'R%', b'C%', b'S1%', b'S2%', b'S3%')]
+    h.require('no-error', impl.interpreter.error_num == 0)
+    h.require('rows-1-to-24-unchanged', s_and(S1 == 82, S2 == 90), [S1, S2])
+    h.require('cursor-stays-on-row-25', s_and(R == 25, C >= 1, C <= 80), [R, C])
+    h.require('first-character-at-located-cell', s_and(s_implies(a <= 79, S3 == 65), s_implies(a <= 75, C == a + 5)), [S3, C])
+    return [R, C, S1, S2, S3]
+
+
 def cases(tier):
     cs = [Case('locate-row', body_locate, params={'which': 'row'}, max_fanout=200),
           Case('locate-col', body_locate, params={'which': 'col'}, max_fanout=200)]
@@ -117,4 +181,10 @@ def cases(tier):
     cs.append(Case('write-any-char-col80', body_write, params={'which': 'row', 'fixed': 80, 'symchar': True, 'pos': 10},
                    max_fanout=400, timeout_s=1500))
     cs.append(Case('view-print-scroll', body_view_print, max_fanout=400))
+    cs.append(Case('locate-after-full-row', body_overflow_locate, max_fanout=400, timeout_s=1500))
+    cs.append(Case('row-25', body_row25, max_fanout=400, timeout_s=1500))
+    windows = [(3, 10), (5, 5), (1, 24)] + ([(2, 23), (24, 24), (1, 1)] if tier == 'thorough' else [])
+    for w in windows:
+        cs.append(Case('window-fill-%d-%d' % w, body_window_fill,
+                       params={'window': w, 'maxn': 240 if tier == 'thorough' else 165}, max_fanout=400, timeout_s=1500))
     return cs
